@@ -2,6 +2,7 @@ package exec
 
 import (
 	"fmt"
+	"sort"
 
 	zerr "github.com/DemoHn/Zn/pkg/error"
 	"github.com/DemoHn/Zn/pkg/io"
@@ -156,8 +157,15 @@ func ExecVarInputText(source string) (r.ElementMap, error) {
 func ExecExpressionInputText(exprStrMap map[string]string) (r.ElementMap, error) {
 	vm := newVarInputVM()
 	result := make(map[string]r.Element)
-	for k, v := range exprStrMap {
-		evalResult, err := evalExpressionText(vm, v)
+	// evaluate in a fixed (sorted) order, so that the reported error does not depend on
+	// map iteration order when more than one expression fails
+	names := make([]string, 0, len(exprStrMap))
+	for k := range exprStrMap {
+		names = append(names, k)
+	}
+	sort.Strings(names)
+	for _, k := range names {
+		evalResult, err := evalExpressionText(vm, exprStrMap[k])
 		if err != nil {
 			return nil, err
 		}
